@@ -280,8 +280,35 @@ def make_trace_hdd(tid, rng, nops=30, **opt):
         g = enc_hds.DEFAULT_TOP
         storages, files, exts, bases = [], {}, [], []
         start = 0
+        # snapshots: every storage holds one image per snapshot; the disk is read through the chain of the top snapshot
+        depth = rng.choice([1, 1, 2, 3])
+        guids = [g] + ["{%08x-1111-2222-3333-444444444444}" % (j + 1) for j in range(1, depth)]
+        FM = 4
         for i in range(k):
             n = rng.randrange(1, 12)
+            if depth > 1:
+                chain, imgs = [], []
+                for j in range(depth):
+                    is_base = j == depth - 1
+                    fid = i * FM + j
+                    if is_base and rng.random() < 0.3:
+                        vf = VirtualFile(n * cs, [(0, n * cs, "pat", fid)], fid=fid)
+                        chain.append({"fmt": "flat", "img": {}})
+                        fn, typ = f"s{i}-{j}.hdd", "Plain"
+                    else:
+                        pos = list(range(1, n + 3))
+                        rng.shuffle(pos)
+                        bat = [0 if rng.random() < 0.45 else pos.pop() for _ in range(n)]
+                        vf, info = enc_hds.build({"ver": 2, "n": n, "cb": 1, "bat": {c: bat[c] for c in range(n)}, "size": n}, cluster_size=cs, file_id=fid, P=n + 3)
+                        chain.append({"fmt": "hds", "img": {"kind": "hds", "ver": 2, "n": n, "cb": 1, "bat": bat, "size": n, "parent": not is_base}})
+                        fn, typ = f"s{i}-{j}.hds", "Compressed"
+                    files[fn] = vf
+                    imgs.append((guids[j], typ, fn))
+                exts.append({"fmt": "chain", "start": start, "n": n, "chain": chain, "img": {}})
+                rng.shuffle(imgs)
+                storages.append((start * cs // 512, (start + n) * cs // 512, imgs))
+                start += n
+                continue
             if rng.random() < 0.4:
                 vf = VirtualFile(n * cs, [(0, n * cs, "pat", i)], fid=i)
                 exts.append({"fmt": "flat", "start": start, "n": n, "img": {}})
@@ -298,14 +325,19 @@ def make_trace_hdd(tid, rng, nops=30, **opt):
             storages.append((start * cs // 512, (start + n) * cs // 512, [(g, typ, fn)]))
             start += n
         rng.shuffle(storages)
-        enc_hds.write_hdd_dir(d, storages, [(g, enc_hds.NULL_GUID)], files, top_guid=g)
+        shots = [(guids[j], guids[j + 1] if j + 1 < depth else enc_hds.NULL_GUID) for j in range(depth)]
+        rng.shuffle(shots)
+        enc_hds.write_hdd_dir(d, storages, shots, files, top_guid=g)
         size_b = start * cs
         s = HDD(Path(d)).open()
         fresh = HDD(Path(d)).open()
         rec = record.Recorder(s, size_b, probe=fresh.readoffset, align=opt.get("align"))
         record.random_ops(rec, rng, size_b, nops, unit=cs, big=min(6 * cs + 4096, 1 << 20))
-        geo = {"cellB": cs, "cb": 1, "stride": cs, "bases": bases, "pbase": 0}
-        return {"tid": tid, "fmt": "extents", "exts": exts, "sizeB": size_b, "sector": 512, "geo": geo, "events": rec.events}
+        geo = {"cellB": cs, "cb": 1, "stride": cs, "bases": bases if depth == 1 else [0] * (k * FM), "pbase": 0}
+        out = {"tid": tid, "fmt": "extents", "exts": exts, "sizeB": size_b, "sector": 512, "geo": geo, "events": rec.events}
+        if depth > 1:
+            out["fmul"] = FM
+        return out
     finally:
         shutil.rmtree(work, ignore_errors=True)
 
